@@ -428,6 +428,42 @@ def excluded_by_path(mod, fn: ast.AST, at: ast.AST, var: str, value: object) -> 
     return False
 
 
+def module_constant_table(mod, name: str) -> Optional[ast.Dict]:
+    """the dict display a module-level name denotes everywhere in the module: bound exactly once (a plain / annotated assignment at module level), never rebound, deleted,
+    declared global, written through or handed on - every other occurrence is a read `name[..]`, `name.get(..)` or `.. in name`."""
+    defs = []
+    binders: set[int] = set()
+    for st in mod.tree.body:
+        if isinstance(st, (ast.Assign, ast.AnnAssign)) and st.value is not None:
+            for t in (st.targets if isinstance(st, ast.Assign) else [st.target]):
+                if isinstance(t, ast.Name) and t.id == name:
+                    defs.append(st.value)
+                    binders.add(id(t))
+    if len(defs) != 1 or not (isinstance(defs[0], ast.Dict) and all(isinstance(k, ast.Constant) for k in defs[0].keys)):
+        return None
+    par: dict[int, ast.AST] = {}
+    for p in ast.walk(mod.tree):
+        for ch in ast.iter_child_nodes(p):
+            par[id(ch)] = p
+    for x in ast.walk(mod.tree):
+        if isinstance(x, (ast.Global, ast.Nonlocal)) and name in x.names:
+            return None
+        if isinstance(x, ast.arg) and x.arg == name:
+            return None
+        if isinstance(x, ast.Name) and x.id == name and id(x) not in binders:
+            if not isinstance(x.ctx, ast.Load):
+                return None
+            p = par.get(id(x))
+            if isinstance(p, ast.Subscript) and p.value is x and isinstance(p.ctx, ast.Load):
+                continue
+            if isinstance(p, ast.Attribute) and p.value is x and p.attr == "get" and isinstance(par.get(id(p)), ast.Call) and par[id(p)].func is p:
+                continue
+            if isinstance(p, ast.Compare) and any(x is c for c in p.comparators) and all(isinstance(o, (ast.In, ast.NotIn)) for o in p.ops):
+                continue
+            return None
+    return defs[0]
+
+
 class Callees:
     """Which method of the wrapped store can a called expression be, given that the local `var` holds the tag `value`?
 
@@ -473,16 +509,88 @@ class Callees:
             # a missing row gives None, which is not callable: the call raises, it does not reach the wrapped store
             return self._row(e.func.value, value, _depth)
         if isinstance(e, ast.Call) and isinstance(e.func, ast.Name) and e.func.id == "getattr" and len(e.args) == 2 and not e.keywords \
-                and self.is_wrapped(e.args[0]) and self.is_var(e.args[1]) and isinstance(value, str):
-            return [value]
+                and self.is_wrapped(e.args[0]) and isinstance(value, str):
+            # the method named by whatever the second argument evaluates to for this tag: the tag itself, a constant, the row of a constant name table
+            return list(self.text_of(e.args[1], value, _depth + 1))
         return [None]
+
+    def text_of(self, e: ast.AST, value: object, _depth: int = 0) -> list[Optional[str]]:
+        """the strings the expression can evaluate to when the tag variable holds `value` (None: not a string this analysis can tell): a constant, the tag variable, the arm of
+        a conditional expression the tag selects, a local (every live definition), `T[k]` / `T.get(k)` / `T.get(k, d)` on a constant table (literal, local, or a module-level
+        name that is bound once and only ever read) with `k` such an expression - the row of the key; the default (or nothing: None is not a name) when there is no row."""
+        if _depth > 8:
+            return [None]
+        if isinstance(e, ast.Constant):
+            return [e.value if isinstance(e.value, str) else None]
+        if self.is_var(e):
+            return [value if isinstance(value, str) else None]
+        if isinstance(e, ast.IfExp):
+            d = decide(e.test, self.var, value)
+            arms = [e.body] if d is True else [e.orelse] if d is False else [e.body, e.orelse]
+            return [x for a in arms for x in self.text_of(a, value, _depth + 1)]
+        if isinstance(e, ast.Name):
+            vals, opaque = bindings(self.fn, e.id)
+            if opaque or not vals:
+                return [None]
+            live = [v for v in vals if not excluded_by_path(self.mod, self.fn, v, self.var, value)]
+            return [x for v in live for x in self.text_of(v, value, _depth + 1)] or [None]
+        tab = key = default = None
+        has_default = False
+        if isinstance(e, ast.Subscript):
+            tab, key = e.value, e.slice
+        elif isinstance(e, ast.Call) and isinstance(e.func, ast.Attribute) and e.func.attr == "get" and len(e.args) in (1, 2) and not e.keywords:
+            tab, key = e.func.value, e.args[0]
+            if len(e.args) == 2:
+                default, has_default = e.args[1], True
+        if tab is None:
+            return [None]
+        tabs = self.tables(tab)
+        if tabs is None:
+            return [None]
+        out: list[Optional[str]] = []
+        for k in self.text_of(key, value, _depth + 1):
+            if k is None:
+                return [None]
+            for t in tabs:
+                rows = [v for kk, v in zip(t.keys, t.values) if kk.value == k]
+                if rows:
+                    out += self.text_of(rows[-1], value, _depth + 1)
+                elif has_default:
+                    out += self.text_of(default, value, _depth + 1)
+                else:
+                    out.append(None)
+        return out or [None]
+
+    def tables(self, table: ast.AST) -> Optional[list[ast.Dict]]:
+        """the dict displays with constant keys that `table` can denote: written out, a local of the function only ever bound to such displays, or a module-level name
+        bound exactly once to one and never written through, handed on or rebound anywhere in the module (only `T[..]` reads, `T.get(..)`, `.. in T`)."""
+        tabs: list[ast.AST] = [table]
+        if isinstance(table, ast.Name):
+            vals, opaque = bindings(self.fn, table.id)
+            if vals and not opaque:
+                tabs = list(vals)
+            elif not vals and not opaque:
+                t = module_constant_table(self.mod, table.id)
+                if t is None:
+                    return None
+                tabs = [t]
+            else:
+                return None
+        if not tabs or not all(isinstance(t, ast.Dict) and all(isinstance(k, ast.Constant) for k in t.keys) for t in tabs):
+            return None
+        return tabs  # type: ignore[return-value]
 
     def _row(self, table: ast.AST, value: object, _depth: int) -> list[Optional[str]]:
         tabs = [table]
         if isinstance(table, ast.Name):
             vals, opaque = bindings(self.fn, table.id)
-            if opaque or not vals:
+            if opaque:
                 return [None]
+            if not vals:
+                t = module_constant_table(self.mod, table.id)
+                if t is None:
+                    return [None]
+                vals = [t]
             tabs = vals
         out: list[Optional[str]] = []
         for t in tabs:
@@ -603,6 +711,28 @@ class Entries:
                 return None
             elts = [self.simplify(x, env) for x in e.elts]
             return None if any(x is None for x in elts) else Entry(elts)  # type: ignore[arg-type]
+        if isinstance(e, ast.BinOp) and isinstance(e.op, ast.Add):
+            # concatenation of two sequences of components
+            l, r = self.resolve(e.left, env, _depth + 1), self.resolve(e.right, env, _depth + 1)
+            return None if l is None or r is None else Entry(l.elts + r.elts)
+        if isinstance(e, ast.Subscript) and isinstance(e.slice, ast.Slice):
+            # a slice with constant bounds of a sequence of components
+            base = self.resolve(e.value, env, _depth + 1)
+            if base is None:
+                return None
+            bounds = []
+            for b in (e.slice.lower, e.slice.upper, e.slice.step):
+                if b is None:
+                    bounds.append(None)
+                elif isinstance(b, ast.Constant) and type(b.value) is int:
+                    bounds.append(b.value)
+                elif isinstance(b, ast.UnaryOp) and isinstance(b.op, ast.USub) and isinstance(b.operand, ast.Constant) and type(b.operand.value) is int:
+                    bounds.append(-b.operand.value)
+                else:
+                    return None
+            if bounds[2] == 0:
+                return None
+            return Entry(base.elts[slice(*bounds)])
         if isinstance(e, ast.Name) and not env:
             if scope_binder(self.fn, e) is not None:
                 return None
@@ -798,6 +928,76 @@ def binder_of(mod, fn: ast.AST, x: ast.Name):
     return None
 
 
+def _path_in(target: ast.AST, name: str) -> Optional[tuple[int, ...]]:
+    """the positions that lead to the name inside an unpacking target ((): the target is the name); None: not in it, or behind a starred element."""
+    if isinstance(target, ast.Name):
+        return () if target.id == name else None
+    if isinstance(target, (ast.Tuple, ast.List)):
+        if any(isinstance(t, ast.Starred) for t in target.elts):
+            return None
+        for i, t in enumerate(target.elts):
+            sub = _path_in(t, name)
+            if sub is not None:
+                return (i,) + sub
+    return None
+
+
+def row_source(mod, fn: ast.AST, e: ast.AST, _depth: int = 0):
+    """(loop statement / comprehension generator, path) when the expression `e`, where it stands, holds the part of the row of that loop's current iteration that the integer
+    positions `path` lead to - however the part is taken out of the row: a name of the loop target (`for (s, p, o), cg in ..`: s is row[0][0]), a constant index of such a
+    part (`row[0]`, `quad[3]`), or a local bound exactly once in the function, before the use, by an unpacking / plain assignment from such a part (`s, p, o = found[0]`).
+    None: `e` is not (known to be) a part of a loop row."""
+    if _depth > 6:
+        return None
+    if isinstance(e, ast.Subscript) and isinstance(e.slice, ast.Constant) and type(e.slice.value) is int and e.slice.value >= 0:
+        src = row_source(mod, fn, e.value, _depth + 1)
+        return None if src is None else (src[0], src[1] + (e.slice.value,))
+    if not isinstance(e, ast.Name):
+        return None
+    b = binder_of(mod, fn, e)
+    if b is not None:
+        path = _path_in(b.target, e.id)
+        return None if path is None else (b, path)
+    if scope_binder(fn, e) is not None:
+        return None
+    args = getattr(fn, "args", None)
+    if args is not None and any(a.arg == e.id for a in args.posonlyargs + args.args + args.kwonlyargs + ([args.vararg] if args.vararg else []) + ([args.kwarg] if args.kwarg else [])):
+        return None
+    stores = [x for x in ast.walk(fn) if isinstance(x, ast.Name) and x.id == e.id and isinstance(x.ctx, (ast.Store, ast.Del))]
+    if len(stores) != 1:
+        return None
+    par = fn_parents(fn)
+    st: Optional[ast.AST] = stores[0]
+    while st is not None and not isinstance(st, ast.stmt):
+        st = par.get(id(st))
+    if not (isinstance(st, ast.Assign) and len(st.targets) == 1) or (st.lineno, st.col_offset) >= (getattr(e, "lineno", 0), getattr(e, "col_offset", 0)):
+        return None
+    path = _path_in(st.targets[0], e.id)
+    src = row_source(mod, fn, st.value, _depth + 1)
+    if path is None or src is None:
+        return None
+    # the assignment is executed in the iteration whose row it reads, and the use sits in the same iteration
+    if not (isinstance(src[0], (ast.For, ast.AsyncFor)) and _inside(par, st, src[0], fn) and _inside(par, e, src[0], fn)):
+        return None
+    return src[0], src[1] + path
+
+
+def enumerated_triple(mod, fn: ast.AST, comps: list[ast.expr]):
+    """the loop whose row gives the three expressions as its subject, predicate and object, in this order: positions 0, 1, 2 of the row itself (rows of a graph: (s, p, o[, c]))
+    or of its first component (rows of the store interface: ((s, p, o), contexts)); None otherwise."""
+    srcs = [row_source(mod, fn, x) for x in comps[:3]]
+    if len(srcs) != 3 or any(s is None for s in srcs):
+        return None
+    loop = srcs[0][0]
+    prefix = srcs[0][1][:-1]
+    if prefix not in ((), (0,)):
+        return None
+    for i, (lp, path) in enumerate(srcs):
+        if lp is not loop or path != prefix + (i,):
+            return None
+    return loop
+
+
 def target_triple(loop) -> list[str]:
     """the names a loop over triples()/quads() gives the subject, predicate and object of a row: ((s, p, o), contexts) of the store interface, (s, p, o[, c]) of a graph."""
     from .core import norm
@@ -825,6 +1025,75 @@ def denotes_triple(fn: ast.AST, e: Optional[ast.AST], comps: list[str], param: s
             continue
         return False
     return True
+
+
+# ------------------------------------------------------------------------------------------------ the replay loop of rollback (rule c, d)
+def replay_loop(mod, fn: ast.AST, log: str, aliases: set[str]):
+    """The loop of `fn` that takes the undo log apart, one entry per iteration: (loop statement, names the five components are unpacked into ([] when the entry is not unpacked
+    into a tuple of names), statements of an iteration, does it visit every entry in log order?, what is iterated (for messages), text of the unpack target).
+
+    * `for <target> in <log>` (the log, a copy / reversal of it, or a local alias of it);
+    * a loop over the positions of the log: `while i < len(<log>)` where the local `i` is bound exactly twice in the function - `i = 0` before the loop and `i += 1` as a statement
+      of the loop body itself - and `<target> = <log>[i]` is a statement of the body before the step; nothing before the step can leave the iteration (continue / break / return)
+      and nothing in the loop breaks out of it: the same entries in the same order, with the same re-reading of the length, as the list iterator of the `for` form.
+    None when rollback has no such loop."""
+    from .core import norm
+
+    def is_log(e: ast.AST) -> bool:
+        return self_attr(e, log) or (isinstance(e, ast.Name) and e.id in aliases)
+
+    loop = None
+    for n in own_nodes(fn):
+        if isinstance(n, ast.For) and (("self." + log) in norm(n.iter) or norm(n.iter) in aliases):
+            loop = n
+    if loop is not None:
+        it = norm(loop.iter)
+        order_ok = it == "self." + log or it in ("reversed(self.%s)" % log, "self.%s[::-1]" % log, "list(self.%s)" % log) or it in aliases
+        tg = [norm(e) for e in loop.target.elts] if isinstance(loop.target, ast.Tuple) else []
+        return loop, tg, loop.body, order_ok, loop.iter, norm(loop.target)
+    for n in own_nodes(fn):
+        if not isinstance(n, ast.While):
+            continue
+        t = n.test
+        idx = None
+        if isinstance(t, ast.Compare) and len(t.ops) == 1:
+            l, op, r = t.left, t.ops[0], t.comparators[0]
+            if isinstance(op, ast.Gt):
+                l, r, op = r, l, ast.Lt()
+            if isinstance(op, ast.Lt) and isinstance(l, ast.Name) and isinstance(r, ast.Call) and isinstance(r.func, ast.Name) and r.func.id == "len" \
+                    and len(r.args) == 1 and not r.keywords and is_log(r.args[0]):
+                idx = l.id
+        if idx is None:
+            continue
+        unpack = step = None
+        for k, st in enumerate(n.body):
+            if unpack is None and isinstance(st, ast.Assign) and len(st.targets) == 1 and isinstance(st.value, ast.Subscript) and is_log(st.value.value) \
+                    and isinstance(st.value.slice, ast.Name) and st.value.slice.id == idx:
+                unpack = (k, st)
+            elif step is None and isinstance(st, ast.AugAssign) and isinstance(st.target, ast.Name) and st.target.id == idx and isinstance(st.op, ast.Add) \
+                    and isinstance(st.value, ast.Constant) and st.value.value == 1 and type(st.value.value) is int:
+                step = (k, st)
+        if unpack is None:
+            continue
+        stores = [x for x in ast.walk(fn) if isinstance(x, ast.Name) and x.id == idx and isinstance(x.ctx, (ast.Store, ast.Del))]
+        inits = [a for a in own_nodes(fn) if isinstance(a, ast.Assign) and len(a.targets) == 1 and isinstance(a.targets[0], ast.Name) and a.targets[0].id == idx
+                 and isinstance(a.value, ast.Constant) and a.value.value == 0 and type(a.value.value) is int]
+        par = fn_parents(fn)
+        init_ok = len(inits) == 1 and not _inside(par, inits[0], n, fn) and (inits[0].lineno, inits[0].col_offset) < (n.lineno, n.col_offset)
+        # the initialisation is not itself inside another loop (it would be the start of every outer iteration, which is fine) - but it must be executed before this loop
+        # on every path: a statement of a block that encloses the loop
+        if init_ok:
+            blk = par.get(id(inits[0]))
+            init_ok = blk is not None and (blk is fn or _inside(par, n, blk, fn)) and not isinstance(blk, (ast.If, ast.Try)) 
+        order_ok = (
+            step is not None and init_ok and len(stores) == 2 and unpack[0] < step[0] and not n.orelse
+            and not any(isinstance(x, (ast.Continue, ast.Break, ast.Return)) for st in n.body[: step[0]] for x in ast.walk(st))
+            and not any(isinstance(x, (ast.Break, ast.Return)) for st in n.body for x in ast.walk(st))
+        )
+        tgt = unpack[1].targets[0]
+        tg = [norm(e) for e in tgt.elts] if isinstance(tgt, ast.Tuple) else []
+        return n, tg, n.body, order_ok, "%s[%s] while %s" % (norm(unpack[1].value.value), idx, norm(t)), norm(tgt)
+    return None
 
 
 # ------------------------------------------------------------------------------------------------ presence tests (rules a, e, j)
